@@ -114,7 +114,7 @@ def ids_for(fmt, vals, names):
     list / array input: the name *is* the value, so equal values are indistinguishable to the code; the model
     is given id = value, which makes them indistinguishable there too."""
     n = len(vals)
-    if fmt in ("list", "array", "uarray"):
+    if fmt in ("list", "array", "uarray", "narrow"):
         return list(vals)
     order = sorted(range(n), key=lambda i: names[i])
     ids = [0] * n
@@ -139,7 +139,7 @@ FORMATS = ["list", "array", "dict_str", "dict_int", "names_valueof", "array_valu
 def names_for(fmt, vals, rng):
     """distinct names for the items of a case in the given format (list/array: names are the values)"""
     n = len(vals)
-    if fmt in ("list", "array", "uarray"):
+    if fmt in ("list", "array", "uarray", "narrow"):
         return list(vals)
     if fmt in ("dict_str", "names_valueof"):
         # arbitrary distinct strings whose order is unrelated to the values
@@ -168,9 +168,15 @@ def present(fmt, vals, names):
         dts = [np.int64, np.int64] + ([np.int32] if 8 * (sum(vals) + max(list(vals) + [0])) < 2 ** 31 else [])
         return np.array(vals, dtype=dts[int(sha([list(vals), "dtype"]), 16) % len(dts)]), None
     if fmt == "uarray":
-        # unsigned integers (used only where named explicitly: known finding KF7 lives here; fix F12 was found here)
+        # unsigned integers (used only where named explicitly: fixes F12 and F13 were found here)
         dts = [np.uint64] + ([np.uint32] if 8 * (sum(vals) + max(list(vals) + [0])) < 2 ** 31 else [])
         return np.array(vals, dtype=dts[int(sha([list(vals), "dtype"]), 16) % len(dts)]), None
+    if fmt == "narrow":
+        # integers of a NARROW numpy type (8 or 16 bits, signed or unsigned): every value fits the type, sums of values need not.  Used only
+        # where named explicitly (streams "narrow-array"); fix F13 was found here (multifit, dp, cg, snp, rnp, bin_completion added the items' own scalars)
+        mx = max(list(vals) + [0])
+        dts = [dt for dt, top in ((np.int8, 127), (np.uint8, 255), (np.int16, 32767), (np.uint16, 65535)) if mx <= top][:2] or [np.int64]
+        return np.array(vals, dtype=dts[int(sha([list(vals), "narrow"]), 16) % len(dts)]), None
     if fmt == "array_valueof":
         # names+valueof with the names (integers unrelated to the values) in a numpy array
         d = {int(nm): v for nm, v in zip(names, vals)}
